@@ -50,6 +50,7 @@ type scenario struct {
 	garbage [2]int
 	decoys  [2][]int
 	pm      int
+	uPlusP  bool
 }
 
 type realEndpoint struct {
@@ -123,12 +124,12 @@ func (r *refEndpoint) kind() string { return "ref" }
 func (r *refEndpoint) program(ev *events) {
 	var err error
 	if r.role == epI {
-		err = r.r.SendKey(r.sc.garbage[epI], r.sc.pm)
+		err = r.r.SendKey(r.sc.garbage[epI], r.sc.pm, r.sc.uPlusP)
 		if err == nil {
 			err = r.r.RecvKey(r.sc.decoys[epI])
 		}
 	} else {
-		err = r.r.RespondKey(r.sc.garbage[epR], r.sc.decoys[epR])
+		err = r.r.RespondKey(r.sc.garbage[epR], r.sc.decoys[epR], r.sc.uPlusP)
 	}
 	if err == nil {
 		err = r.r.Scan()
